@@ -169,6 +169,25 @@ static int p_endpush(void)      /* F16-ENDPUSH: an iterator with nothing left se
     ok += x && !strcmp(x, "z");
     return all_or_none(ok, 3);
 }
+static int p_uniqreset(void)    /* F16-UNIQ-NORESET: uniq / sort of a one-record list reset the iterators as well */
+{
+    hostlist_t h = hostlist_create("a[1-4]");
+    hostlist_iterator_t it;
+    char *x;
+    int ok = 0;
+    if (!h) return 2;
+    it = hostlist_iterator_create(h);
+    hostlist_next(it);
+    hostlist_uniq(h);
+    x = hostlist_next(it);
+    if (!x || (strcmp(x, "a1") && strcmp(x, "a2"))) return 2;
+    ok += !strcmp(x, "a1");
+    hostlist_sort(h);
+    x = hostlist_next(it);
+    if (!x) return 2;
+    ok += !strcmp(x, "a1");
+    return all_or_none(ok, 2);
+}
 /* run a probe in a child: a crash / hang of the child means "recorded defect" (0) */
 static int probe(int (*f)(void))
 {
@@ -221,5 +240,6 @@ int main(void)
     bad |= lean_bool("FIX_D26_CMPTRUNC", probe(p_cmptrunc));
     bad |= lean_bool("FIX_D1_DELETEALL", probe(p_deleteall));
     bad |= lean_bool("FIX_F16_ENDPUSH", probe(p_endpush));
+    bad |= lean_bool("FIX_F16_UNIQRESET", probe(p_uniqreset));
     return bad;
 }
